@@ -379,8 +379,47 @@ fn eval_res(v: &Value) -> String {
     }
 }
 
+/// Registered allowed memory: ranges (offset, length) inside a 256-byte buffer of the arena are
+/// registered on a no-data VM and one load of `w` bytes at offset `at` is interpreted. The answer
+/// (value or error) must not depend on the build, whatever the ranges look like (nested, overlapping,
+/// adjacent, registered in any order).
+fn eval_alw(v: &Value) -> String {
+    let ranges: Vec<(u64, u64)> = v["ranges"].as_array().map(|a| a.iter().map(|x| (x[0].as_u64().unwrap_or(0), x[1].as_u64().unwrap_or(0))).collect()).unwrap_or_default();
+    let at = v["at"].as_u64().unwrap_or(0);
+    let w = v["w"].as_u64().unwrap_or(1);
+    let data: Vec<u8> = (0..256u32).map(|k| (k as u8).wrapping_mul(7).wrapping_add(1)).collect();
+    let mem = in_arena(&data);
+    let base = mem.as_ptr() as u64;
+    let addr = base + at;
+    // lddw r1, addr ; ldx{b,h,w,dw} r0, [r1+0] ; exit
+    let ldx = match w { 1 => 0x71u8, 2 => 0x69, 4 => 0x61, _ => 0x79 };
+    let mut p: Vec<u8> = vec![0x18, 0x01, 0, 0];
+    p.extend_from_slice(&(addr as u32).to_le_bytes());
+    p.extend_from_slice(&[0, 0, 0, 0]);
+    p.extend_from_slice(&((addr >> 32) as u32).to_le_bytes());
+    p.extend_from_slice(&[ldx, 0x10, 0, 0, 0, 0, 0, 0]);
+    p.extend_from_slice(&[0x95, 0, 0, 0, 0, 0, 0, 0]);
+    match caught(|| {
+        let mut vm = match rbpf::EbpfVmNoData::new(Some(&p)) {
+            Ok(v) => v,
+            Err(_) => return "LoadErr".to_string(),
+        };
+        for (o, l) in &ranges {
+            vm.register_allowed_memory(base + o..base + o + l);
+        }
+        match vm.execute_program() {
+            Ok(x) => format!("Ok:{x:x}"),
+            Err(_) => "Err".into(),
+        }
+    }) {
+        Ok(s) => s,
+        Err(()) => "panic".into(),
+    }
+}
+
 pub fn eval(v: &Value) -> String {
     match v["k"].as_str().unwrap_or("") {
+        "alw" => eval_alw(v),
         "res" => eval_res(v),
         "asm" => {
             let t = v["t"].as_str().unwrap_or("");
